@@ -176,7 +176,21 @@ class ConstVelEdge(_Custom):
         return [2] if model.kind(self.vertices[0].pose) == "se2" else []
 
 
-TYPES = {c.NAME: c for c in (PriorEdge, PositionPriorEdge, DistanceEdge, RangeEdge, RelPoseEdge, MidpointEdge, ConstVelEdge)}
+class FaultyPositionPrior(PositionPriorEdge):
+    """A position prior whose error function raises on its k-th evaluation (fault injected inside an edge, i.e. mid-assembly)."""
+
+    NAME = "faulty"
+    fail_at = 10 ** 9
+    calls = 0
+
+    def calc_error(self):
+        self.calls += 1
+        if self.calls >= self.fail_at:
+            raise RuntimeError("injected edge fault")
+        return PositionPriorEdge.calc_error(self)
+
+
+TYPES = {c.NAME: c for c in (PriorEdge, PositionPriorEdge, DistanceEdge, RangeEdge, RelPoseEdge, MidpointEdge, ConstVelEdge, FaultyPositionPrior)}
 
 
 def make(e, info):
